@@ -61,7 +61,7 @@ def sister_frame(body, k):
         # bodies: a copy, then other attributes), not built from scratch: nothing the first body picked up while
         # serving may stick to the second
         r0 = 3 * b.equatorial_radius
-        StateVector([r0, 0, 0, 0, math.sqrt(b.mu / r0), 1.0], Date(2020, 1, 1), "cartesian", base).copy(form="tle")
+        StateVector([r0, 0, 0, 0, math.sqrt(b.mu / r0), 1.0], Date(2010, 1, 1), "cartesian", base).copy(form="tle")
         b2 = copy.deepcopy(b)
         b2.name = name
         b2.mass = b.mass * k
